@@ -674,7 +674,7 @@ Proof.
   destruct (id =? 3) eqn:E3.
   { split; [|cbn; repeat split; auto; intros; lia].
     unfold R0. cbn. repeat split; auto; try lia. intros v0 Hv0. inversion Hv0. reflexivity. }
-  destruct (id =? 4) eqn:E4; [|split; [unfold R0; repeat split; auto|repeat split; auto; intros; lia]].
+  destruct (id =? 4) eqn:E4; [|split; [unfold R0; repeat split; auto; lia|repeat split; auto; intros; lia]].
   split; [|cbn; repeat split; auto; intros; lia].
   assert (Hd : wrap32 (wrap32 v - wrap32 (cc_init_win c)) = v - cc_init_win c).
   { rewrite (wrap32_id v) by (unfold in32; lia). rewrite (wrap32_id (cc_init_win c)) by (unfold in32; lia).
